@@ -61,9 +61,11 @@ def name_atom(term, hdr_size, full_size):
     if op == 'call' and term[2][0].endswith('::eq') and '.magic' in ft:
         return ('magic==SHM_MAGIC', True)
     if op == 'call' and term[2][0].endswith('::ne') and '.magic' in ft:
-        return ('magic!=SHM_MAGIC', False)
+        return ('magic==SHM_MAGIC', False)
     if op in ('eq',) and '.magic' in ft:
         return ('magic==SHM_MAGIC', True)
+    if op in ('ne',) and '.magic' in ft:
+        return ('magic==SHM_MAGIC', False)
     return None
 
 
@@ -118,6 +120,12 @@ class OpenModel:
             for term, op, val, _ in p.conds:
                 t = truth_of(op, val)
                 a = name_atom(term, self.hdr_size, self.hdr_size + self.rec_size)
+                if a is None and term[0] == 't' and term[1] == 'call' and 'atomic' in term[2][0] and term[2][0].endswith('::load'):
+                    # `match x.load() { 0 => .., _ => .. }` / `if x.load() == 0`: a switch on the loaded integer itself
+                    k = val if op == '==' else (val[0] if len(val) == 1 else None)
+                    if isinstance(k, int):
+                        a = name_atom(psi.T('Eq', term, psi.C(k, 'u16')), self.hdr_size, self.hdr_size + self.rec_size)
+                        t = (op == '==')
                 if a is None or t is None:
                     unknown.append(psi.fmt_cond((term, op, val, None))[:100])
                     continue
